@@ -10,6 +10,9 @@
      - upper (str.upper) is idempotent;
      - no token of the document upper-cases to SETS / ASSUMPTIONS / CODONS (the reader leaves such
        a block unconsumed when characters are excluded, the iterator skips it to its END).
+   va / vk select the current (false) or repaired (true) form of the two sites with a recorded
+   finding (Model/C13Model.v, Section Routes); the positive theorems hold for both forms, the
+   `_refuted` ones are about the current form.
    `hypotheses_satisfiable` and the Examples in Proofs/C13Examples.v show they are not vacuous. *)
 From Coq Require Import ZArith List Bool.
 From Coq Require String. Import String.StringSyntax.
@@ -23,10 +26,10 @@ Theorem routes_agree_newick :
   forall (T : Type) (lower upper : str -> str)
          (parse_tree : mapper -> tz -> res (option T * mapper * tz))
          (set_label : T -> option str -> T) (add_comments : T -> list str -> T)
-         (ns0 : list str) (d : doc),
-  let L := treelist_read T lower upper parse_tree set_label add_comments Newick in
+         (va vk : bool) (ns0 : list str) (d : doc),
+  let L := treelist_read T lower upper parse_tree set_label add_comments va Newick in
   let Y := yield_from_files T lower upper parse_tree set_label add_comments Newick in
-  let G := tree_get T lower upper parse_tree set_label add_comments Newick in
+  let G := tree_get T lower upper parse_tree set_label add_comments va vk Newick in
   (* the list route is a function of what the iterator does: same trees, same order, same
      namespace; it fails exactly when the iterator fails, with the same error, the iterator
      having handed out a prefix before *)
@@ -37,8 +40,8 @@ Theorem routes_agree_newick :
         keyword assigned; IndexError beyond the end; ValueError when there is no tree *)
      (forall ts ns, L [] d = Ok (ts, ns) ->
         (forall c k t, (c = None \/ c = Some 0) -> nth_error ts k = Some t ->
-           G c (Some (Z.of_nat k)) d = Ok (set_label t None))
-        /\ (forall c t, (c = None \/ c = Some 0) -> nth_error ts 0 = Some t -> G c None d = Ok (set_label t None))
+           G c (Some (Z.of_nat k)) d = Ok (got_label T set_label vk t))
+        /\ (forall c t, (c = None \/ c = Some 0) -> nth_error ts 0 = Some t -> G c None d = Ok (got_label T set_label vk t))
         /\ (forall c k, (c = None \/ c = Some 0) -> ts <> [] -> Z.of_nat (length ts) <= k -> G c (Some k) d = Err IndexErr)
         /\ (forall c k, (c = None \/ c = Some 0) -> ts = [] -> G c k d = Err ValueErr))
   /\ (forall e c k, L [] d = Err e -> G c k d = Err e).
@@ -96,12 +99,12 @@ Print Assumptions nexus_loops_agree.
 Theorem routes_agree_nexus_partial :
   forall (T : Type) (lower upper : str -> str)
          (parse_tree : mapper -> tz -> res (option T * mapper * tz))
-         (set_label : T -> option str -> T) (add_comments : T -> list str -> T),
+         (set_label : T -> option str -> T) (add_comments : T -> list str -> T) (va : bool),
   (forall m z ot m' z', parse_tree m z = Ok (ot, m', z') -> exists pre, z_toks z = pre ++ z_toks z') ->
   (forall s, upper (upper s) = upper s) ->
   forall (ns0 : list str) (d : doc) ts ns,
   (forall t, In t (fst d) -> is_sets_kw (Some (upper (t_text t))) = false) ->
-  treelist_read T lower upper parse_tree set_label add_comments Nexus ns0 d = Ok (ts, ns) ->
+  treelist_read T lower upper parse_tree set_label add_comments va Nexus ns0 d = Ok (ts, ns) ->
   yield_from_files T lower upper parse_tree set_label add_comments Nexus ns0 d = (ts, Ok ns)
   /\ (forall k, treearray_read T lower upper parse_tree set_label add_comments Nexus k ns0 d
                 = (skipn (Z.to_nat k) ts, Ok ns)).
@@ -119,7 +122,7 @@ Theorem routes_agree_nexus_refuted :
     /\ length (fst (yield_from_files sktree (lower_with []) (upper_with []) (sk_parse_tree (lower_with []))
                                      sk_set_label sk_add_comments Nexus [] d)) = 2%nat
     /\ treelist_get sktree (lower_with []) (upper_with []) (sk_parse_tree (lower_with []))
-                    sk_set_label sk_add_comments Nexus d = Err ParseErr
+                    sk_set_label sk_add_comments false Nexus d = Err ParseErr
     /\ is_ok (dataset_get sktree (lower_with []) (upper_with []) (sk_parse_tree (lower_with []))
                           sk_set_label sk_add_comments Nexus false d) = true.
 Proof. exact attached_not_conversely_x. Qed.
@@ -133,21 +136,21 @@ Print Assumptions routes_agree_nexus_refuted.
 Theorem dataset_blocks_concat_partial :
   forall (T : Type) (lower upper : str -> str)
          (parse_tree : mapper -> tz -> res (option T * mapper * tz))
-         (set_label : T -> option str -> T) (add_comments : T -> list str -> T),
+         (set_label : T -> option str -> T) (add_comments : T -> list str -> T) (va : bool),
   (forall m z ot m' z', parse_tree m z = Ok (ot, m', z') -> exists pre, z_toks z = pre ++ z_toks z') ->
   (forall s, upper (upper s) = upper s) ->
   forall (d : doc),
   (forall t, In t (fst d) -> is_sets_kw (Some (upper (t_text t))) = false) ->
   (* the per-collection lists Tree.get / TreeList.get(collection_offset=..) parse and the single
      list of TreeList.get: exact, errors included *)
-  match read_blocks T lower upper parse_tree set_label add_comments Nexus cfg_blocks [] d with
-  | Ok (blocks, ns) => treelist_get T lower upper parse_tree set_label add_comments Nexus d = Ok (concat blocks, ns)
-  | Err e => treelist_get T lower upper parse_tree set_label add_comments Nexus d = Err e
-  | OutOfFuel => treelist_get T lower upper parse_tree set_label add_comments Nexus d = OutOfFuel
+  match read_blocks T lower upper parse_tree set_label add_comments Nexus (cfg_blocks va) [] d with
+  | Ok (blocks, ns) => treelist_get T lower upper parse_tree set_label add_comments va Nexus d = Ok (concat blocks, ns)
+  | Err e => treelist_get T lower upper parse_tree set_label add_comments va Nexus d = Err e
+  | OutOfFuel => treelist_get T lower upper parse_tree set_label add_comments va Nexus d = OutOfFuel
   end
   /\
   (* DataSet.get(taxon_namespace=ns) delivers the same trees, grouped, whenever TreeList.get succeeds *)
-  (forall ts ns, treelist_get T lower upper parse_tree set_label add_comments Nexus d = Ok (ts, ns) ->
+  (forall ts ns, treelist_get T lower upper parse_tree set_label add_comments va Nexus d = Ok (ts, ns) ->
      exists blocks, dataset_get T lower upper parse_tree set_label add_comments Nexus true d = Ok blocks
                     /\ concat blocks = ts).
 Proof. exact S_dataset_blocks_concat. Qed.
@@ -159,23 +162,23 @@ Print Assumptions dataset_blocks_concat_partial.
 Theorem offset_selection :
   forall (T : Type) (lower upper : str -> str)
          (parse_tree : mapper -> tz -> res (option T * mapper * tz))
-         (set_label : T -> option str -> T) (add_comments : T -> list str -> T),
+         (set_label : T -> option str -> T) (add_comments : T -> list str -> T) (va vk : bool),
   (forall m z ot m' z', parse_tree m z = Ok (ot, m', z') -> exists pre, z_toks z = pre ++ z_toks z') ->
   (forall s, upper (upper s) = upper s) ->
   forall (d : doc),
   (forall t, In t (fst d) -> is_sets_kw (Some (upper (t_text t))) = false) ->
   forall blocks ns,
-  read_blocks T lower upper parse_tree set_label add_comments Nexus cfg_blocks [] d = Ok (blocks, ns) ->
-  treelist_get T lower upper parse_tree set_label add_comments Nexus d = Ok (concat blocks, ns)
-  /\ (forall c k, tree_get T lower upper parse_tree set_label add_comments Nexus c k d
-                  = select_tree T set_label blocks (match c with Some c => c | None => 0 end)
+  read_blocks T lower upper parse_tree set_label add_comments Nexus (cfg_blocks va) [] d = Ok (blocks, ns) ->
+  treelist_get T lower upper parse_tree set_label add_comments va Nexus d = Ok (concat blocks, ns)
+  /\ (forall c k, tree_get T lower upper parse_tree set_label add_comments va vk Nexus c k d
+                  = select_tree T set_label vk blocks (match c with Some c => c | None => 0 end)
                                 (match k with Some k => k | None => 0 end))
   /\ (forall (c k : nat) b t, nth_error blocks c = Some b -> nth_error b k = Some t ->
-        tree_get T lower upper parse_tree set_label add_comments Nexus (Some (Z.of_nat c)) (Some (Z.of_nat k)) d
-        = Ok (set_label t None)
+        tree_get T lower upper parse_tree set_label add_comments va vk Nexus (Some (Z.of_nat c)) (Some (Z.of_nat k)) d
+        = Ok (got_label T set_label vk t)
         /\ nth_error (concat blocks) (length (concat (firstn c blocks)) + k) = Some t)
   /\ (forall c k, (c <> None \/ k <> None) ->
-        treelist_get_off T lower upper parse_tree set_label add_comments Nexus c k d
+        treelist_get_off T lower upper parse_tree set_label add_comments va Nexus c k d
         = select_offsets T blocks (match c with Some c => c | None => 0 end) k).
 Proof. exact S_offset_selection. Qed.
 Print Assumptions offset_selection.
@@ -184,16 +187,16 @@ Print Assumptions offset_selection.
    ValueError; collection offset outside [-n, n) -> IndexError; empty collection -> ValueError;
    tree offset outside [-m, m) -> IndexError; otherwise the tree, negative offsets from the end *)
 Theorem offset_selection_cases :
-  forall (T : Type) (set_label : T -> option str -> T) (blocks : list (list T)) (c k : Z),
-  (blocks = [] -> select_tree T set_label blocks c k = Err ValueErr)
+  forall (T : Type) (set_label : T -> option str -> T) (vk : bool) (blocks : list (list T)) (c k : Z),
+  (blocks = [] -> select_tree T set_label vk blocks c k = Err ValueErr)
   /\ (blocks <> [] -> (Z.of_nat (length blocks) <= c \/ c < - Z.of_nat (length blocks)) ->
-        select_tree T set_label blocks c k = Err IndexErr)
+        select_tree T set_label vk blocks c k = Err IndexErr)
   /\ (forall (i : nat) b, nth_error blocks i = Some b -> (c = Z.of_nat i \/ c = Z.of_nat i - Z.of_nat (length blocks)) ->
-        (b = [] -> select_tree T set_label blocks c k = Err ValueErr)
+        (b = [] -> select_tree T set_label vk blocks c k = Err ValueErr)
         /\ (b <> [] -> (Z.of_nat (length b) <= k \/ k < - Z.of_nat (length b)) ->
-              select_tree T set_label blocks c k = Err IndexErr)
+              select_tree T set_label vk blocks c k = Err IndexErr)
         /\ (forall (j : nat) t, nth_error b j = Some t -> (k = Z.of_nat j \/ k = Z.of_nat j - Z.of_nat (length b)) ->
-              select_tree T set_label blocks c k = Ok (set_label t None))).
+              select_tree T set_label vk blocks c k = Ok (got_label T set_label vk t))).
 Proof. exact S_select_tree_cases. Qed.
 Print Assumptions offset_selection_cases.
 
@@ -203,9 +206,9 @@ Print Assumptions offset_selection_cases.
 Theorem tree_get_label_refuted :
   exists (d : doc) t t',
     (exists ns, treelist_get sktree (lower_with []) (upper_with []) (sk_parse_tree (lower_with []))
-                             sk_set_label sk_add_comments Nexus d = Ok ([t; t'], ns))
+                             sk_set_label sk_add_comments false Nexus d = Ok ([t; t'], ns))
     /\ (exists u, tree_get sktree (lower_with []) (upper_with []) (sk_parse_tree (lower_with []))
-                           sk_set_label sk_add_comments Nexus None None d = Ok u
+                           sk_set_label sk_add_comments false false Nexus None None d = Ok u
                   /\ sk_label t = Some (Some (q "foo")) /\ sk_label u = Some None
                   /\ sk_items u = sk_items t).
 Proof. exact tree_get_label_refuted_l. Qed.
@@ -238,22 +241,22 @@ Print Assumptions shared_namespace_same_taxa.
 Theorem shared_namespace_threading :
   forall (T : Type) (lower upper : str -> str)
          (parse_tree : mapper -> tz -> res (option T * mapper * tz))
-         (set_label : T -> option str -> T) (add_comments : T -> list str -> T),
+         (set_label : T -> option str -> T) (add_comments : T -> list str -> T) (va : bool),
   (forall sch ns0 d,
-     treelist_read_twice T lower upper parse_tree set_label add_comments sch ns0 d =
-     match treelist_read T lower upper parse_tree set_label add_comments sch ns0 d with
-     | Ok (_, ns1) => treelist_read T lower upper parse_tree set_label add_comments sch ns1 d
+     treelist_read_twice T lower upper parse_tree set_label add_comments va sch ns0 d =
+     match treelist_read T lower upper parse_tree set_label add_comments va sch ns0 d with
+     | Ok (_, ns1) => treelist_read T lower upper parse_tree set_label add_comments va sch ns1 d
      | Err e => Err e
      | OutOfFuel => OutOfFuel
      end)
   /\ ((forall m z ot m' z', parse_tree m z = Ok (ot, m', z') -> exists r, m_ns m' = m_ns m ++ r) ->
       forall ns0 d ts ns1,
-      treelist_read T lower upper parse_tree set_label add_comments Newick ns0 d = Ok (ts, ns1) ->
+      treelist_read T lower upper parse_tree set_label add_comments va Newick ns0 d = Ok (ts, ns1) ->
       exists r, ns1 = ns0 ++ r).
 Proof.
-  exact (fun T lower upper parse_tree set_label add_comments =>
-           conj (S_read_twice T lower upper parse_tree set_label add_comments)
-                (S_newick_grows T lower upper parse_tree set_label add_comments)).
+  exact (fun T lower upper parse_tree set_label add_comments va =>
+           conj (S_read_twice T lower upper parse_tree set_label add_comments va)
+                (S_newick_grows T lower upper parse_tree set_label add_comments va)).
 Qed.
 Print Assumptions shared_namespace_threading.
 
